@@ -180,6 +180,7 @@ pub fn replay_file(path: &str) -> i32 {
             println!("{}", if hit { "REPRODUCED" } else { "NOT REPRODUCED" });
             if hit { 1 } else { 0 }
         }
+        "auth" => crate::auth::replay(&v["replay"]),
         other => {
             eprintln!("replay for engine {other} is handled by its module");
             2
